@@ -68,8 +68,10 @@ def make_case(rng, method=None, prec_kind=None, force=None):
     order = rng.permutation(len(cond))
     cond = [cond[i] for i in order]
     fold = [fold[i] for i in order]
-    vkind = gen.pick(rng, ['pos', 'posint']) if method == 'poisson_cv' else \
-        gen.pick(rng, ['normal', 'normal', 'smallint_f', 'int'])
+    # storage of the measurements: the same numbers as float64, as (narrow) integers or as booleans (single precision is
+    # left out: the library legitimately computes float32 input in float32, 1e-8 relative differences)
+    vkind = gen.pick(rng, ['pos', 'posint', 'uint8']) if method == 'poisson_cv' else \
+        gen.pick(rng, ['normal', 'normal', 'smallint_f', 'int', 'uint8', 'int8', 'bool'])
     meas = gen.values(rng, (len(cond), n_ch), vkind)
     if method == 'crossnobis':
         prec_kind = prec_kind or gen.pick(rng, ['none', 'one', 'per_fold'])
@@ -90,6 +92,14 @@ def make_case(rng, method=None, prec_kind=None, force=None):
     if prec_kind == 'none':
         case['pscale'] = 1.0
     return case
+
+
+def as_flag(case):
+    """the remove_mean switch as a caller may hold it: a Python bool, a numpy bool (the result of a comparison or an
+    element of a boolean array) or the integer 0/1 -- its truth value is what counts"""
+    v = bool(case['remove_mean'])
+    form = (len(case['cond']) + case['n_ch']) % 3
+    return v if form == 0 else (np.bool_(v) if form == 1 else int(v))
 
 
 def sig_of(case, **extra):
@@ -116,7 +126,7 @@ def call(case, meas=None, cond=None, fold=None, flabs=None, prec=None, precs=Non
     if not default_folds:
         kw['cv_descriptor'] = 'fold'
     if case['method'] == 'crossnobis':
-        kw['remove_mean'] = case['remove_mean']
+        kw['remove_mean'] = as_flag(case)
         if prec is not None:
             kw['noise'] = prec.copy()
         elif precs is not None:
@@ -195,7 +205,7 @@ def run_case(ctx, case):
     kw = dict(method=case['method'], descriptor='cond', cv_descriptor='fold')
     noise_obj = None
     if case['method'] == 'crossnobis':
-        kw['remove_mean'] = case['remove_mean']
+        kw['remove_mean'] = as_flag(case)
         if case['prec'] is not None:
             noise_obj = case['prec'].copy()
         elif case['precs'] is not None:
